@@ -16,15 +16,19 @@ package dns
 //@   may-panic
 //@   assert at "return w.tcp.Write(msg)" frame: len(m) <= 65535 && len(msg) == len(m) + 2 && msg[0] == len(m) / 256 && msg[1] == len(m) % 256 && (forall k in 0..len(m) :: msg[2+k] == m[k])
 
-// reading: the two-octet length decides how many octets are read (io.ReadFull: all of them or an error)
+// reading: the two-octet length decides how many octets are read (io.ReadFull: all of them or an error);
+// a stream is never read with a plain Read, which may return a partial prefix or body
 //@ func (*Conn).Read [C12]
 //@   requires co != nil
+//@   assert at "return co.Conn.Read(p)" datagram: callres("isPacketConn")
 //@   ensures n: ret1 == nil ==> 0 <= ret0 && ret0 <= len(p)
 //@ func (*Conn).ReadMsgHeader [C12]
-//@   requires co != nil
+//@   requires co != nil && co.Conn != nil
+//@   assert at* ".Conn.Read(" datagram: callres("isPacketConn")
 //@   ensures hdr: ret1 == nil ==> len(ret0) >= 12
 //@ func (*Server).readTCP [C12]
 //@   requires srv != nil && conn != nil
+//@   assert at* "conn.Read(" fullreads: false
 //@   exit whole: ret1 == nil ==> len(ret0) == length
 
 // a client exchange never hands back a reply with another ID as a success
